@@ -84,6 +84,7 @@ fn sys_family(name: &str) -> Option<SysFam> {
         "c14" => Some(fam_flow::c14),
         "c11" => Some(fam_flow::c11),
         "c07" => Some(fam_flow::c07),
+        "c13f" => Some(fam_flow::c13f),
         _ => None,
     }
 }
